@@ -385,8 +385,12 @@ def gen_query(draw, vals):
         q['mode'], q['k'] = 'rerun', draw(st.integers(2, 3))
     elif m < 77:
         q['mode'], q['k'] = 'tosql', draw(st.integers(1, 2))
-    elif m < 92:
+    elif m < 84:
         q['mode'], q['k'] = 'interleaved', 2
+    elif m < 88:
+        q['mode'], q['k'] = 'lockstep', 2
+    elif m < 92:
+        q['mode'], q['k'] = 'nested', 2
     else:
         q['mode'], q['k'] = 'shared', 1
     return q
@@ -710,6 +714,45 @@ def execute(db, qobj, q):
             r2 = db(qobj)
             out.append(_materialise(r1))
             out.append(_materialise(r2))
+        elif mode == 'lockstep':
+            # two results of the same database consumed alternately, row by row
+            r1 = db(qobj)
+            r2 = db(qobj)
+            if isinstance(r1, int) or isinstance(r2, int):
+                out.append(_materialise(r1))
+                out.append(_materialise(r2))
+            else:
+                a, b, i1, i2 = [], [], iter(r1), iter(r2)
+                live1 = live2 = True
+                while live1 or live2:
+                    if live1:
+                        try:
+                            a.append(next(i1))
+                        except StopIteration:
+                            live1 = False
+                    if live2:
+                        try:
+                            b.append(next(i2))
+                        except StopIteration:
+                            live2 = False
+                out.append(a)
+                out.append(b)
+        elif mode == 'nested':
+            # the same query run to completion while an earlier result is only partly consumed
+            r1 = db(qobj)
+            if isinstance(r1, int):
+                out.append(r1)
+                out.append(_materialise(db(qobj)))
+            else:
+                a, i1 = [], iter(r1)
+                try:
+                    a.append(next(i1))
+                except StopIteration:
+                    pass
+                inner = _materialise(db(qobj))
+                a.extend(i1)
+                out.append(a)
+                out.append(inner)
         else:
             out.append(_materialise(db(qobj)))
     except core.PASS_THROUGH:
@@ -1086,9 +1129,9 @@ def classify(ctx, ref, q, dbkind):
         lim = q.get('limit') if q.get('limit') is not None else 20
         if len(pairs) > lim:
             ctx.label('freq:truncated-by-limit')
-    if q.get('sample') is not None and q.get('mode') in ('rerun', 'interleaved'):
+    if q.get('sample') is not None and q.get('mode') in ('rerun', 'interleaved', 'lockstep', 'nested'):
         ctx.label('sample:re-executed')
-    return size == 'proper-subset' or q.get('mode') in ('rerun', 'interleaved', 'tosql') or two_sided
+    return size == 'proper-subset' or q.get('mode') in ('rerun', 'interleaved', 'lockstep', 'nested', 'tosql') or two_sided
 
 
 def check_case(ctx, st_, ref, db, dbd, q):
